@@ -7,6 +7,7 @@ import M3d.Lemmas.SdfProfile
 import M3d.Lemmas.SdfTri
 import M3d.Lemmas.SdfTriFull
 import M3d.Lemmas.SdfXform
+import M3d.Lemmas.SdfMesh
 import Mathlib.Analysis.Real.Sqrt
 import Mathlib.Algebra.Order.Field.Rat
 import Mathlib.Tactic.NormNum
@@ -488,6 +489,96 @@ theorem mesh_sdf_sign_parity (inBounds : Bool) (collisions : Nat) (d : K) (hd : 
     (inBounds = true ∧ collisions % 2 = 1 → meshSign (parityInside inBounds collisions) d = d) ∧
     (¬ (inBounds = true ∧ collisions % 2 = 1) → meshSign (parityInside inBounds collisions) d = -d) :=
   meshSign_spec inBounds collisions d hd
+
+/-- **`meshDistFunc.Dist` never lets a leaf with a NaN distance influence the result** (a zero-length 2-D segment
+`{p, p}` has `Closest = 0/0`): with `leaf f = none` for such a leaf — the test `dist < *curDist` is false for NaN —
+the scan over the pieces equals the scan over the list with those pieces removed; it finds nothing only when every
+leaf is NaN, and otherwise returns the evaluation of a piece of the list such that **no evaluated piece has a
+smaller distance** (the exhaustive minimum over the pieces that have a distance).  (Seeded change C06-8 stores the
+NaN instead, after which everything found before is forgotten.) -/
+theorem mesh_scan_ignores_nan_leaves {L : Type} [LinearOrder L] {β γ : Type} (leaf : β → Option (L × γ)) (fs : List β) :
+    scanWith leaf fs = scanWith leaf (fs.filter fun f => (leaf f).isSome) ∧
+    (scanWith leaf fs = none ↔ ∀ f ∈ fs, leaf f = none) ∧
+    ∀ x, scanWith leaf fs = some x →
+      (∃ f ∈ fs, leaf f = some x) ∧ ∀ g ∈ fs, ∀ y, leaf g = some y → x.1 ≤ y.1 :=
+  ⟨scanWith_filter leaf fs, (scanWith_spec leaf fs).1, (scanWith_spec leaf fs).2⟩
+
+/-- **… and ignoring covered pieces does not change the exhaustive minimum**: with a reference distance `D` of every
+piece that the evaluated leaves report, if every NaN piece is covered by an evaluated piece at most as far, the
+scan over a non-empty list returns `r` with `r.1 = D f` for a piece `f` and `r.1 ≤ D g` for **every** piece `g`. -/
+theorem mesh_scan_min_over_all_pieces {L : Type} [LinearOrder L] {β γ : Type} (leaf : β → Option (L × γ)) (D : β → L)
+    (fs : List β) (hne : fs ≠ [])
+    (hD : ∀ f ∈ fs, ∀ x, leaf f = some x → x.1 = D f)
+    (hcov : ∀ g ∈ fs, leaf g = none → ∃ f ∈ fs, ∃ x, leaf f = some x ∧ x.1 ≤ D g) :
+    ∃ r, scanWith leaf fs = some r ∧ (∃ f ∈ fs, leaf f = some r ∧ r.1 = D f) ∧ ∀ g ∈ fs, r.1 ≤ D g :=
+  scanWith_covered leaf D fs hne hD hcov
+
+/-- **2-D `meshSDF` (`MeshToSDF`, `GroupedSegmentsToSDF`): the magnitude is the exhaustive minimum over the boundary's
+pieces, zero-length pieces included.**  The leaf evaluation is the one of the float run (`segLeaf2Skip`: a zero-length
+segment `{p, p}` has a NaN distance and is ignored, every proper segment is evaluated by `Segment.Closest` /
+`Coord.Dist`).  If every zero-length piece `{p, p}` has `p` as an end point of a proper segment of the mesh (a closed
+polyline whose last point repeats the first; a vertex listed twice), then for a non-empty mesh the scan returns
+`(d, p, i)` with `d ≥ 0`, `d² = ‖p - c‖²`, `p = Closest(c)` of the proper segment `i`, `p` on that segment, and
+`d² ≤ ‖q - c‖²` for every point `q` of every piece of the mesh. -/
+theorem mesh2_sdf_exhaustive_min_degenerate {E : Env K} (hE : E.Exact) (segs : List (Seg K × Nat)) (c : V2 K)
+    (hne : segs ≠ [])
+    (hcov : ∀ g ∈ segs, g.1.a = g.1.b → ∃ f ∈ segs, f.1.a ≠ f.1.b ∧ (f.1.a = g.1.a ∨ f.1.b = g.1.a)) :
+    ∃ d p i, scanWith (segLeaf2Skip E c) segs = some (d, p, i) ∧ 0 ≤ d ∧ d * d = p.sqDist c ∧
+      (∃ f ∈ segs, f.2 = i ∧ f.1.a ≠ f.1.b ∧ p = segClosest2 E f.1.a f.1.b c ∧
+        ∃ t, 0 ≤ t ∧ t ≤ 1 ∧ p = V2.lerp f.1.a f.1.b t) ∧
+      ∀ g ∈ segs, ∀ t, 0 ≤ t → t ≤ 1 → d * d ≤ (V2.lerp g.1.a g.1.b t).sqDist c :=
+  meshScan2Skip_spec hE segs c hne hcov
+
+/-- non-vacuity: the triangle outline `(0,0) (1,0) (0,1) (0,0)` with the closing point repeated -/
+example : ∀ g ∈ [((⟨⟨0, 0⟩, ⟨1, 0⟩⟩ : Seg ℚ), 0), (⟨⟨1, 0⟩, ⟨0, 1⟩⟩, 1), (⟨⟨0, 1⟩, ⟨0, 0⟩⟩, 2), (⟨⟨0, 0⟩, ⟨0, 0⟩⟩, 3)],
+    g.1.a = g.1.b → ∃ f ∈ [((⟨⟨0, 0⟩, ⟨1, 0⟩⟩ : Seg ℚ), 0), (⟨⟨1, 0⟩, ⟨0, 1⟩⟩, 1), (⟨⟨0, 1⟩, ⟨0, 0⟩⟩, 2),
+      (⟨⟨0, 0⟩, ⟨0, 0⟩⟩, 3)], f.1.a ≠ f.1.b ∧ (f.1.a = g.1.a ∨ f.1.b = g.1.a) := by
+  intro g hg hdeg
+  simp only [List.mem_cons, List.not_mem_nil, or_false] at hg
+  rcases hg with rfl | rfl | rfl | rfl
+  · simp only [V2.mk.injEq] at hdeg; norm_num at hdeg
+  · simp only [V2.mk.injEq] at hdeg; norm_num at hdeg
+  · simp only [V2.mk.injEq] at hdeg; norm_num at hdeg
+  · exact ⟨_, List.mem_cons_self .., by simp only [ne_eq, V2.mk.injEq]; norm_num, Or.inl rfl⟩
+
+/-- **2-D `meshSDF` without zero-length pieces**: the faithful model `meshScan2` (the linear scan the driver runs at
+`Float` against the real pruned search) returns the exhaustive minimum over all points of all segments. -/
+theorem mesh2_sdf_exhaustive_min {E : Env K} (hE : E.Exact) (segs : List (Seg K × Nat)) (c : V2 K)
+    (hne : segs ≠ []) (hnd : ∀ f ∈ segs, f.1.a ≠ f.1.b) :
+    ∃ d p i, meshScan2 E segs c = some (d, p, i) ∧ 0 ≤ d ∧ d * d = p.sqDist c ∧
+      (∃ f ∈ segs, f.2 = i ∧ p = segClosest2 E f.1.a f.1.b c ∧ ∃ t, 0 ≤ t ∧ t ≤ 1 ∧ p = V2.lerp f.1.a f.1.b t) ∧
+      ∀ g ∈ segs, ∀ t, 0 ≤ t → t ≤ 1 → d * d ≤ (V2.lerp g.1.a g.1.b t).sqDist c := by
+  obtain ⟨d, p, i, h, hd, hdd, ⟨f, hf, hfi, _, hp, ht⟩, hmin⟩ :=
+    meshScan2Skip_spec hE segs c hne (fun g hg hdeg => absurd hdeg (hnd g hg))
+  rw [scanWith_skip_eq E c segs hnd] at h
+  exact ⟨d, p, i, h, hd, hdd, ⟨f, hf, hfi, hp, ht⟩, hmin⟩
+
+/-- **3-D `meshSDF` (`MeshToSDF`, `GroupedTrianglesToSDF`): the magnitude is the exhaustive minimum over the faces**
+(non-degenerate triangles, non-empty mesh): the model's scan returns `(d, p, i)` with `d ≥ 0`, `d² = ‖p - c‖²`,
+`p = Closest(c)` of face `i`, a point of that triangle, and no point of any triangle of the mesh is closer. -/
+theorem mesh_sdf_exhaustive_min {E : Env K} (hE : E.Exact) (faces : List (Tri K × Nat)) (c : V3 K) (hne : faces ≠ [])
+    (hnd : ∀ f ∈ faces, (M3.ofColumns (f.1.b.sub f.1.a) (f.1.c.sub f.1.a) (triNormal E f.1.a f.1.b f.1.c)).det ≠ 0 ∧
+      0 < (f.1.b.sub f.1.a).normSq ∧ 0 < (f.1.c.sub f.1.b).normSq ∧ 0 < (f.1.a.sub f.1.c).normSq) :
+    ∃ d p i, meshScan E faces c = some (d, p, i) ∧ 0 ≤ d ∧ d * d = p.sqDist c ∧
+      (∃ f ∈ faces, f.2 = i ∧ p = triClosest E f.1.a f.1.b f.1.c c ∧
+        ∃ a b, InTri a b ∧ p = triPoint f.1.a f.1.b f.1.c a b) ∧
+      ∀ g ∈ faces, ∀ a b, InTri a b → d * d ≤ (triPoint g.1.a g.1.b g.1.c a b).sqDist c := by
+  rw [meshScan_eq_scanWith]
+  obtain ⟨r, hr, ⟨f, hf, hfr, _⟩, hmin⟩ := scanWith_covered
+    (fun f : Tri K × Nat => some ((triClosest E f.1.a f.1.b f.1.c c).dist E c, triClosest E f.1.a f.1.b f.1.c c, f.2))
+    (fun f => (triClosest E f.1.a f.1.b f.1.c c).dist E c) faces hne
+    (by intro f _ x hx; cases hx; rfl)
+    (by intro g _ hg; cases hg)
+  cases hfr
+  refine ⟨_, _, _, hr, (V3.dist_facts hE _ _).1, (V3.dist_facts hE _ _).2, ?_, ?_⟩
+  · obtain ⟨h0, h1, h2, h3⟩ := hnd f hf
+    exact ⟨f, hf, rfl, rfl, (triangle_closest_optimal hE f.1.a f.1.b f.1.c c h0 h1 h2 h3).1⟩
+  · intro g hg a b hab
+    obtain ⟨h0, h1, h2, h3⟩ := hnd g hg
+    have hd0 := (V3.dist_facts hE (triClosest E f.1.a f.1.b f.1.c c) c).1
+    have := sq_le_of_le hd0 (hmin g hg)
+    rw [(V3.dist_facts hE (triClosest E g.1.a g.1.b g.1.c c) c).2] at this
+    exact le_trans this ((triangle_closest_optimal hE g.1.a g.1.b g.1.c c h0 h1 h2 h3).2 a b hab)
 
 /-! ## Lipschitz -/
 
